@@ -4,8 +4,10 @@ package headers
 
 import (
 	"context"
+	"math/big"
 
 	"github.com/tokenized/pkg/bitcoin"
+	"github.com/tokenized/pkg/wire"
 
 	"github.com/pkg/errors"
 )
@@ -84,4 +86,25 @@ func (repo *Repository) VerifBranchCount() int {
 	defer repo.Unlock()
 
 	return len(repo.branches)
+}
+
+// VerifMockPruned makes the repository hold the specified header as the only header of a main
+// branch whose earlier headers have been pruned from memory. Like MockLatest, but in the shape the
+// main branch of a long running repository has, so that maintenance works on it.
+func (repo *Repository) VerifMockPruned(ctx context.Context, header *wire.BlockHeader, height int,
+	work *big.Int) error {
+	repo.Lock()
+	defer repo.Unlock()
+
+	branch, err := NewBranch(nil, -1, header)
+	if err != nil {
+		return err
+	}
+	branch.offset = height + 1
+	branch.heightsMap[branch.headers[0].Hash] = height
+	branch.headers[0].AccumulatedWork = work
+	repo.heights[branch.headers[0].Hash] = height
+	repo.branches = Branches{branch}
+	repo.longest = branch
+	return nil
 }
